@@ -192,6 +192,16 @@ func overWire(msg *pb.XuperMessage) (*pb.XuperMessage, error) {
 	return &m2, nil
 }
 
+// built keeps the last messages that NewMessage returned and that decoded correctly: a message is the sender's to keep
+// (send queues, retries), so building further messages must not change what an earlier one decodes to.
+type builtMsg struct {
+	msg  *pb.XuperMessage
+	orig []byte
+	line string
+}
+
+var built []builtMsg
+
 func execMsg(w []string, line string, out *xvlib.Out) string {
 	typ, err := strconv.Atoi(w[1])
 	opts, hasLog, ok1 := parseOpts(w[2])
@@ -231,6 +241,19 @@ func execMsg(w []string, line string, out *xvlib.Out) string {
 			out.Violate(xvlib.Violation{Key: "roundtrip:inproc:" + inproc + ":" + kind + "-payload",
 				What: "a message built by NewMessage does not decode (in-process) to the payload that was sent: Unmarshal -> " + inproc,
 				Ops:  []string{line}, Impl: []string{"inproc=" + inproc}})
+		}
+		for _, old := range built {
+			if again := decode(old.msg, old.orig); again != "ok" {
+				out.Violate(xvlib.Violation{Key: "roundtrip:later-build-changes-earlier-message:" + again,
+					What: "a message built by NewMessage decoded to its payload, and no longer does after another message was built: Unmarshal -> " + again,
+					Ops:  []string{old.line, line}, Impl: []string{"earlier message now: " + again}})
+			}
+		}
+		if inproc == "ok" {
+			built = append(built, builtMsg{msg, m, line})
+			if len(built) > 4 {
+				built = built[1:]
+			}
 		}
 		if wire != "ok" {
 			out.Violate(xvlib.Violation{Key: "roundtrip:wire:" + wire + ":" + kind + "-payload",
